@@ -632,7 +632,7 @@ class StmtMixin:
                 q.ghost["yielded"] = L.App(q.ghost.get("yielded", L.Empty), L.Single(v.z))
                 res.append(Outcome("next", q))
         else:
-            for q, v in self.ev(y.value, p, R):
+            for q, v in self.ev_iter(y.value, p, R):
                 if v.tag == "gen":
                     q.ghost["yielded"] = L.App(q.ghost.get("yielded", L.Empty), v.z)
                 elif v.tag == "lref":
